@@ -42,6 +42,9 @@ STRUCTS = {
                              "key": ("key", "bytes"), "val_offset": ("valOffset", "usize")},
                   "cmp_field": "cmp"},
 }
+# plain value structures built with struct literals
+VALUE_STRUCTS = {"BlockHandle": {"lean": "BlockHandle", "fields": {"offset": "offset", "size": "size"}},
+                 "Footer": {"lean": "Footer", "fields": {"meta_index": "metaIndex", "index": "index"}}}
 STRUCTS["BlockBuilder"] = {"lean": "BlockBuilder", "cmp_param": True,
                            "fields": {"buffer": ("buffer", "bytes"), "restarts": ("restarts", "natlist"), "last_key": ("lastKey", "bytes"),
                                       "restart_counter": ("restartCounter", "usize"), "counter": ("counter", "usize")},
@@ -58,6 +61,8 @@ TARGETS += [
     ("block.rs", _BI, "advance", "bi_advance", {}, "BlockIter"),
     ("block.rs", _BI, "seek_to_last", "bi_seek_to_last", {}, "BlockIter"),
     ("block.rs", _BI, "prev", "bi_prev", {}, "BlockIter"),
+    ("blockhandle.rs", r"impl\s+BlockHandle", "try_decode", "bh_try_decode", {}),
+    ("table_builder.rs", r"impl\s+Footer", "try_decode", "footer_try_decode", {}),
     ("block.rs", _BI, "current", "bi_current", {}, "BlockIter"),
     ("types.rs", r"pub\s+trait\s+SSIterator", "next", "bi_next", {}, "BlockIter"),
     ("block.rs", _BI, "seek", "bi_seek", {}, "BlockIter"),
@@ -154,6 +159,8 @@ def collect_consts(text):
     env = {}
     for m in re.finditer(r"\bconst\s+([A-Z_][A-Z0-9_]*)\s*:\s*([A-Za-z0-9_]+)\s*=\s*([^;]+);", text):
         env[m.group(1)] = (m.group(2), m.group(3).strip())
+    for m in re.finditer(r"\bconst\s+([A-Z_][A-Z0-9_]*)\s*:\s*\[\s*u8\s*;[^\]]*\]\s*=\s*(\[[^;]+\]);", text):
+        env[m.group(1)] = ("bytes", m.group(2).strip())
     return env
 
 
@@ -213,6 +220,8 @@ class P:
             return "bytes" if t == "u8" else ("natlist" if t in INTS else ("list", t))
         if v == "BlockContents":
             return "bytes"
+        if v in VALUE_STRUCTS:
+            return "vstruct:" + v
         if v == "Option":
             self.expect("<")
             t = self.ty()
@@ -474,7 +483,18 @@ class P:
             elif self.at("(") and e[0] == "var":
                 e = ("call", [e[1]], self.args())
             elif self.at("?"):
-                raise Untranslatable("? operator")
+                self.next()
+                e = ("try", e)
+            elif self.at("{") and not ns and e[0] == "var" and e[1] in VALUE_STRUCTS:
+                self.next()
+                fs = []
+                while not self.at("}"):
+                    fn_ = self.next()[1]
+                    self.expect(":")
+                    fs.append((fn_, self.expr()))
+                    self.eat(",")
+                self.expect("}")
+                e = ("structlit", e[1], fs)
             else:
                 return e
 
@@ -630,6 +650,8 @@ def lean_ty(t):
         return " × ".join(par(lean_ty(x)) if isinstance(x, tuple) else lean_ty(x) for x in t[1])
     if isinstance(t, str) and t.startswith("struct:"):
         return STRUCTS[t[7:]]["lean"]
+    if isinstance(t, str) and t.startswith("vstruct:"):
+        return VALUE_STRUCTS[t[8:]]["lean"]
     return {"bool": "Bool", "bytes": "Bytes", "ordering": "Ordering", "unit": "Unit", "policy": "Bytes → Bytes → Bool", "natlist": "List Nat", "usizelist": "List Nat"}[t]
 
 
@@ -650,7 +672,8 @@ def norm_writer(e):
 
 
 MUTATORS = ("push", "extend_from_slice", "resize", "clear", "truncate", "write_varint", "write_fixedint", "reserve")
-MUT_SELF_METHODS = set()   # names of translated &mut self methods (filled while translating, callee before caller)
+MUT_SELF_METHODS = set()
+ASSOC_FNS = {}             # (Type, fn) -> (lean name, params, return type) of translated associated functions without self   # names of translated &mut self methods (filled while translating, callee before caller)
 
 
 def assigned_vars(stmts, acc=None):
@@ -936,6 +959,17 @@ class Emitter:
                 return "(← Rt.sliceChk %s %s %s %s)" % (b, par(lo), par(hi), self.site("slice")), "bytes"
             i, it = self.expr(ix, env, "usize")
             return "(← Rt.idx %s %s %s)" % (b, par(i), self.site("index")), "u8"
+        if k == "structlit":
+            vs = VALUE_STRUCTS[e[1]]
+            parts = []
+            for fn_, fe in e[2]:
+                if fn_ not in vs["fields"]:
+                    raise Untranslatable("field %s of %s" % (fn_, e[1]))
+                c, t = self.expr(fe, env, None)
+                parts.append("%s := %s" % (vs["fields"][fn_], c))
+            return "({ %s } : %s)" % (", ".join(parts), vs["lean"]), "vstruct:" + e[1]
+        if k == "try":
+            raise Untranslatable("? operator in this position")
         if k == "rawcond":
             return e[1], "bool"
         if k == "natidx":
@@ -1107,6 +1141,15 @@ class Emitter:
             return "(← (do %s%s))" % ("".join(pre), code), t
         if len(path) == 1 and path[0] in self.known:
             return self.fn_call(path[0], args, env)
+        if len(path) == 2 and (path[0], path[1]) in ASSOC_FNS:
+            lean, ptypes, ret = ASSOC_FNS[(path[0], path[1])]
+            cs = []
+            for a, (pn, pt) in zip(args, ptypes):
+                c, t = self.expr(a, env, pt)
+                if t != pt:
+                    raise Untranslatable("argument type %s for %s" % (t, pt))
+                cs.append(par(c))
+            return "(← %s %s)" % (lean, " ".join(cs)), ret
         raise Untranslatable("call of %s" % p)
 
     def fn_call(self, name, args, env):
@@ -1212,7 +1255,7 @@ class Emitter:
         """Lean name of a (re)declared Rust variable: shadowing is plain `let` shadowing"""
         if v == "_":
             return self.fresh("_u")
-        return v if re.match(r"[a-z_][a-z0-9_]*$", v) and v not in ("at", "from", "end", "fun", "do", "then", "open", "by", "have", "show", "match", "with", "in", "let", "if", "else", "fuel") else "v_" + v
+        return v if re.match(r"[a-z_][a-z0-9_]*$", v) and v not in ("at", "from", "end", "fun", "do", "then", "open", "by", "have", "show", "match", "with", "in", "let", "if", "else", "fuel", "meta", "instance", "structure", "class", "where", "def", "theorem", "namespace", "section", "variable", "universe", "import", "export", "private", "protected", "partial", "unsafe", "mutual", "deriving", "extends", "abbrev", "example", "inductive", "macro", "syntax", "notation", "prefix", "infix", "postfix", "attribute", "set_option", "using", "calc", "suffices", "obtain", "return", "for", "unless", "try", "catch", "finally", "break", "continue", "mut", "nomatch", "nofun", "this", "cmp", "self_", "Type", "Prop", "Sort", "local", "scoped", "noncomputable", "opaque", "axiom", "initialize", "omit", "include") else "v_" + v
 
     def stmts(self, ss, env, ctx):
         """Lean `do`-sequence text (type Res <ctx result>) for the statements followed by the context's end"""
@@ -1220,6 +1263,13 @@ class Emitter:
             return ctx.on_end(env)
         s, rest = ss[0], ss[1:]
         k = s[0]
+        if k in ("letpat", "let") and isinstance(s[2] if k == "letpat" else s[3], tuple) and (s[2] if k == "letpat" else s[3])[0] == "try":
+            # let pat = e?;   ==   match e { Some(pat) => rest, None => return None }
+            init = (s[2] if k == "letpat" else s[3])[1]
+            if not (isinstance(self.ret, tuple) and self.ret[0] == "option"):
+                raise Untranslatable("? in a function that does not return an Option")
+            names = (s[1], True) if k == "letpat" else ([s[1]], False)
+            return self.match_stmt(("matchopt", init, names, rest, [("return", ("var", "None"))]), [], env, ctx)
         if k == "letpat":
             _, names, init = s
             env2 = dict(env)
@@ -1645,6 +1695,7 @@ def ind(s, n=2):
 def translate(src_dir):
     out, report, allknown = [], [], {}
     MUT_SELF_METHODS.clear()
+    ASSOC_FNS.clear()
     for tgt in TARGETS:
         fname, impl, rust, lean, fields = tgt[:5]
         struct = tgt[5] if len(tgt) > 5 else None
@@ -1678,6 +1729,10 @@ def translate(src_dir):
             known[rust] = (lean, params, ret, fuel, list(fields), pr.selfkind if struct else None, struct, em.uses_cmp, list(pr.outs))
             if struct and pr.selfkind == "mut":
                 MUT_SELF_METHODS.add(rust)
+            if not struct and pr.selfkind is None and impl and not fuel:
+                mm = re.search(r"impl\\s\+(\w+)", impl)
+                if mm:
+                    ASSOC_FNS[(mm.group(1), rust)] = (lean, params, ret)
             report.append((lean, "ok"))
         except Untranslatable as ex:
             out.append("-- UNTRANSLATABLE %s (%s::%s): %s\n" % (lean, fname, rust, ex))
